@@ -1,0 +1,139 @@
+//go:build verif
+
+package ctrlflow
+
+import (
+	"fmt"
+	"go/ast"
+	"go/importer"
+	"go/parser"
+	"go/token"
+	"go/types"
+	"strings"
+
+	"golang.org/x/tools/go/ssa"
+	"golang.org/x/tools/go/ssa/ssautil"
+)
+
+// VerifFlatten builds SSA for an import-free source file, applies the real applyFlattening to function fn with a
+// seeded random source, and describes the resulting graph in terms of the ORIGINAL block numbers:
+//
+//	edges=<b>t,...      the jump / if edges of the original function in the order applyFlattening visits them
+//	keys=<k>,...        the phi edges of the dispatcher entry block, one per redirected edge
+//	entry=ok|<what>     the first block is the dispatcher: phi + jump to the first chain block, preds = the jump blocks
+//	jump<i>=<from>      block the i-th jump block is entered from (original number), or a complaint
+//	chain<i>=<key>:<target>:<else>   compared constant, true successor (original number), false successor ("c<j>" or "real")
+//	succ=<b>:<i>,...    for every original block, which jump block each of its successor slots now points to
+func VerifFlatten(seed int64, src, fn string) string {
+	fset := token.NewFileSet()
+	f, err := parser.ParseFile(fset, "src.go", src, 0)
+	if err != nil {
+		return "err " + err.Error()
+	}
+	ssaPkg, _, err := ssautil.BuildPackage(&types.Config{Importer: importer.Default()}, fset, types.NewPackage("test/main", ""), []*ast.File{f}, 0)
+	if err != nil {
+		return "err " + err.Error()
+	}
+	ssaFunc := ssaPkg.Func(fn)
+	if ssaFunc == nil {
+		return "err no such function"
+	}
+	orig := map[*ssa.BasicBlock]int{}
+	for i, b := range ssaFunc.Blocks {
+		orig[b] = i
+	}
+	name := func(b *ssa.BasicBlock) string {
+		if i, ok := orig[b]; ok {
+			return fmt.Sprint(i)
+		}
+		return "?" + b.Comment
+	}
+	var edges []string
+	type edge struct{ from, to *ssa.BasicBlock }
+	var edgeList []edge
+	for _, b := range ssaFunc.Blocks {
+		switch b.Instrs[len(b.Instrs)-1].(type) {
+		case *ssa.Jump:
+			edgeList = append(edgeList, edge{b, b.Succs[0]})
+		case *ssa.If:
+			edgeList = append(edgeList, edge{b, b.Succs[0]}, edge{b, b.Succs[1]})
+		}
+	}
+	for _, e := range edgeList {
+		edges = append(edges, name(e.from)+">"+name(e.to))
+	}
+	realEntry := ssaFunc.Blocks[0]
+	origBlocks := append([]*ssa.BasicBlock{}, ssaFunc.Blocks...)
+
+	rnd, _ := verifRand(seed)
+	info := applyFlattening(ssaFunc, rnd)
+	if info == nil {
+		return "edges=" + strings.Join(edges, ",") + " notflattened"
+	}
+	var out []string
+	out = append(out, "edges="+strings.Join(edges, ","))
+	entry := ssaFunc.Blocks[0]
+	phi, ok := entry.Instrs[0].(*ssa.Phi)
+	if !ok || len(entry.Instrs) != 2 {
+		return "err entry block is not phi+jump"
+	}
+	var keys []string
+	for _, e := range phi.Edges {
+		keys = append(keys, e.(*ssa.Const).Value.ExactString())
+	}
+	out = append(out, "keys="+strings.Join(keys, ","))
+	entryOK := "ok"
+	if _, isJump := entry.Instrs[1].(*ssa.Jump); !isJump || len(entry.Succs) != 1 || len(entry.Preds) != len(phi.Edges) {
+		entryOK = "malformed"
+	}
+	out = append(out, "entry="+entryOK)
+	jumpIdx := map[*ssa.BasicBlock]int{}
+	for i, jb := range entry.Preds {
+		jumpIdx[jb] = i
+		d := name(jb.Preds[0])
+		if len(jb.Instrs) != 1 || len(jb.Succs) != 1 || jb.Succs[0] != entry || len(jb.Preds) != 1 {
+			d = "malformed"
+		}
+		out = append(out, fmt.Sprintf("jump%d=%s", i, d))
+	}
+	chainIdx := map[*ssa.BasicBlock]int{}
+	var chain []*ssa.BasicBlock
+	for c := entry.Succs[0]; c != nil && c != realEntry; {
+		if _, seen := chainIdx[c]; seen || len(c.Instrs) != 2 || len(c.Succs) != 2 {
+			break
+		}
+		chainIdx[c] = len(chain)
+		chain = append(chain, c)
+		c = c.Succs[1]
+	}
+	for i, c := range chain {
+		cond, ok1 := c.Instrs[0].(*ssa.BinOp)
+		_, ok2 := c.Instrs[1].(*ssa.If)
+		if !ok1 || !ok2 || cond.Op != token.EQL || cond.X != ssa.Value(phi) {
+			out = append(out, fmt.Sprintf("chain%d=malformed", i))
+			continue
+		}
+		els := "real"
+		if c.Succs[1] != realEntry {
+			if j, ok := chainIdx[c.Succs[1]]; ok {
+				els = fmt.Sprintf("c%d", j)
+			} else {
+				els = "?"
+			}
+		}
+		out = append(out, fmt.Sprintf("chain%d=%s:%s:%s", i, cond.Y.(*ssa.Const).Value.ExactString(), name(c.Succs[0]), els))
+	}
+	var succ []string
+	for _, b := range origBlocks {
+		for _, s := range b.Succs {
+			if i, ok := jumpIdx[s]; ok {
+				succ = append(succ, fmt.Sprintf("%s:%d", name(b), i))
+			} else {
+				succ = append(succ, fmt.Sprintf("%s:direct-%s", name(b), name(s)))
+			}
+		}
+	}
+	out = append(out, "succ="+strings.Join(succ, ","))
+	out = append(out, fmt.Sprintf("blocks=%d", len(ssaFunc.Blocks)))
+	return strings.Join(out, " ")
+}
